@@ -21,8 +21,8 @@ EXPLANATION = (
     "Uniqueness and validity of names are preconditions of 'the resolved target is the documented one'. C08.D is a "
     "contradiction rule: the expression tested with jump_table.contains and the expression passed to jump_table.insert in "
     "add_function must be the same (normalised HIR). C08.V: each namespace.push(x) in flatten_module lies after an early "
-    "return guarded by !is_name_valid(x) on the same x. C08.O: resolve_function consists of four jump_table.get calls, each "
-    "after the first nested in `if to.is_none()`. C08.F: data-flow of CallFrame.stack_offset from checked_sub(len, arity) "
+    "return guarded by !is_name_valid(x) on the same x. C08.O: the jump-table lookups of resolve_function are classified by what their key is computed "
+    "from (MIR data slice, through private helpers) and a path-sensitive walk shows that a later one runs only after the earlier ones missed. C08.F: data-flow of CallFrame.stack_offset from checked_sub(len, arity) "
     "to clear_until in instr_return. Not decided: that the resolved target equals the documented one for a given module "
     "tree (behavioural over name sets)."
 )
@@ -306,7 +306,8 @@ def rule_p(F):
     (split_once, find, contains, ...) also fires inside a module name such as `mysuper.` and resolves the import one level
     up, to another function. (2) wherever resolve_function applies the depth (namespace shortened by `take(depth)`), the
     alias enters the looked-up name only through its stripped form `s.unwrap_or(alias)`, and the function part of a
-    `prefix.function` call is appended as it is: otherwise `super.` is counted twice and the import never resolves."""
+    `prefix.function` call is appended as it is: otherwise `super.` is counted twice and the import never resolves.
+    (3) see checked_depth_cuts_namespace."""
     res = []
     sd = F.fn("compiler::super_depth")
     anchored, loose = [], []
@@ -379,6 +380,73 @@ def rule_p(F):
                 res.append(ok("C08.P", key, f.loc(st.get("ln")), "alias used only as s.unwrap_or(alias) after the namespace was shortened"))
     if n < 2:
         raise AnchorMissing("super_depth call sites in resolve_function (found %d)" % n)
+    res.extend(checked_depth_cuts_namespace(F))
+    return res
+
+
+_SUBS = ("checked_sub", "saturating_sub", "wrapping_sub", "overflowing_sub", "sub")
+
+
+def depth_calls(F, f, du, memo):
+    """the calls of the resolver that compute how many namespace components remain after going up: a subtraction (itself, or
+    inside the crate-local callee) over the length of current_namespace and the count returned by super_depth"""
+    out = []
+    for bi, t in mu.calls(f):
+        nm = callee_names(t["func"])
+        if not nm:
+            continue
+        inner = set()
+        for n_ in nm:
+            c = F.fn(n_, required=False)
+            if c is not None and c.mir:
+                inner |= fields_touched(F, c, memo)
+        if not (nm[0].rsplit("::", 1)[-1] in _SUBS or any("call:" + x in inner for x in _SUBS)):
+            continue
+        atoms = set()
+        for a in t["args"]:
+            atoms |= mir_provenance(F, f, du, a, memo)
+        if ("current_namespace" in inner or ("field", "current_namespace") in atoms) and ("call", "super_depth") in atoms:
+            out.append((bi, t))
+    return out
+
+
+def checked_depth_cuts_namespace(F):
+    """C08.P (3): the number of namespace components that remain after the `super.`s of an import is computed once, with
+    the underflow check (SuperLimitReached), and that very number is what shortens the namespace in the looked-up name:
+    the value of the depth computation lies in the data slice of the key of each import lookup. A name shortened by other
+    means (string surgery on the joined namespace, a second count) can disagree with the check."""
+    res = []
+    f = resolver_fn(F)
+    du = DefUse(f)
+    memo = {}
+    lookups = table_lookups(f)
+    rpo = dict((b, n_) for n_, b in enumerate(f.cfg._rpo()))
+    lookups.sort(key=lambda x: rpo.get(x[0], 10 ** 6))
+    dcalls = depth_calls(F, f, du, memo)
+    seen_kind = {}
+    for bi, t in lookups:
+        kind = classify_lookup(F, f, du, t, memo)
+        if kind not in ("function-import", "module-import"):
+            continue
+        c = seen_kind.get(kind, 0)
+        seen_kind[kind] = c + 1
+        key = "C08/P/%s/%s%s-namespace-cut-by-the-checked-depth" % (f.name, kind, "" if c == 0 else "#%d" % c)
+        cands = [dt for dbi, dt in dcalls if bi in f.cfg.reachable_from(dbi)]
+        via = []
+        mir_provenance(F, f, du, t["args"][1], memo, via)
+        if not cands:
+            res.append(undecided("C08.P", key, f.loc(t.get("ln")), "no computation of the remaining namespace depth (namespace length minus "
+                                 "super_depth) found before this lookup"))
+        elif any(dt is v for dt in cands for v in via):
+            res.append(ok("C08.P", key, f.loc(t.get("ln")), "the looked-up name is built from the checked depth"))
+        else:
+            res.append(bad("C08.P", key, f.loc(t.get("ln")),
+                           "%s checks how far the `super.`s of an import may go up (SuperLimitReached when there are more of them than "
+                           "enclosing modules) but the name it then looks up is not built from that checked depth: the namespace is "
+                           "shortened by other means, which need not agree with the check - e.g. an import that goes up exactly to the "
+                           "root (`super.super.f` used in module a.b) passes the check with depth 0 and is looked up under a name that "
+                           "still carries a namespace component, so the call is bound to no function (InvalidJump) or to one of another "
+                           "module" % f.name))
     return res
 
 
@@ -445,67 +513,385 @@ def loop_collection(f, node, anc):
     return best
 
 
+# ---------------------------------------------------------------------------------------------------
+# C08.O: the lookups of the resolver, decided on MIR (independent of `if to.is_none()` / early return / match idioms
+# and of private helpers that build the looked-up name)
+# ---------------------------------------------------------------------------------------------------
+
+def _rv_operands(rv):
+    """(operands, places) read by an rvalue"""
+    k = rv["k"]
+    if k in ("use", "cast", "repeat", "shallow_box"):
+        return [rv["op"]] if rv.get("op") else [], []
+    if k in ("ref", "rawptr", "discr", "len", "copy_for_deref"):
+        return [], [rv["place"]] if rv.get("place") else []
+    if k == "bin":
+        return [rv["l"], rv["r"]], []
+    if k == "un":
+        return [rv["x"]], []
+    if k == "agg":
+        return list(rv["ops"]), []
+    ops = [v for v in rv.values() if isinstance(v, dict) and v.get("k") in ("copy", "move", "const")]
+    pls = [v for v in rv.values() if isinstance(v, dict) and "l" in v and "p" in v]
+    return ops, pls
+
+
+def fields_touched(F, fn, memo, depth=0):
+    """names of all fields that occur in a place of `fn`, of the crate-local functions it calls and of the closures it
+    builds (what a helper may read of `self` besides its arguments); the functions called on the way are included as
+    "call:<last path segment>"."""
+    if fn.short in memo:
+        return memo[fn.short]
+    memo[fn.short] = set()
+    out = set()
+    if fn.mir and depth < 6:
+        def place(pl):
+            for e in pl["p"]:
+                if e["k"] == "field" and e.get("name") is not None:
+                    out.add(str(e["name"]))
+        for b in fn.blocks:
+            for st in b["stmts"]:
+                if st["k"] != "assign":
+                    continue
+                place(st["place"])
+                ops, pls = _rv_operands(st["rv"])
+                for o in ops:
+                    if op_place(o) is not None:
+                        place(op_place(o))
+                for pl in pls:
+                    place(pl)
+                if st["rv"]["k"] == "bin" and str(st["rv"].get("op", "")).startswith("Sub"):
+                    out.add("call:sub")
+                if st["rv"]["k"] == "agg" and st["rv"]["agg"]["k"] == "closure":
+                    c = F.fn(short(st["rv"]["agg"]["path"]), required=False)
+                    if c is not None:
+                        out |= fields_touched(F, c, memo, depth + 1)
+            t = b["term"]
+            if t["k"] == "call":
+                for o in t["args"]:
+                    if op_place(o) is not None:
+                        place(op_place(o))
+                nm = callee_names(t["func"])
+                if nm:
+                    out.add("call:" + nm[0].rsplit("::", 1)[-1])
+                for n in nm:
+                    c = F.fn(n, required=False)
+                    if c is not None and c.mir:
+                        out |= fields_touched(F, c, memo, depth + 1)
+    memo[fn.short] = out
+    return out
+
+
+def mir_provenance(F, f, du, operand, memo, via_calls=None):
+    """Backward data slice of an operand in MIR: the set of atoms its value is computed from -
+    ('param', n), ('field', name) for every field read on the way (also inside crate-local helpers and closures the
+    value passes through), ('call', last path segment) for every call on the way, ('const', text).
+    Flow-insensitive over all definitions of a local; a local filled through `&mut local` handed to a call also gets
+    the other arguments of that call. `via_calls` (a list) receives the call terminators of f the slice passes through."""
+    atoms = set()
+    # calls that receive `&mut L`: L -> [call terminators]
+    filled = {}
+    mut_ref_of = {}
+    for l, ds in du.defs.items():
+        for d in ds:
+            if d[2] == "assign" and not d[3]["place"]["p"] and d[3]["rv"]["k"] in ("ref", "rawptr") and d[3]["rv"].get("mut") not in ("shared", "not", None):
+                mut_ref_of.setdefault(l, set()).add(d[3]["rv"]["place"]["l"])
+    for _bi, t in mu.calls(f):
+        for a in t["args"]:
+            al = op_local(a)
+            for tgt in mut_ref_of.get(al, ()):
+                filled.setdefault(tgt, []).append(t)
+    work = []
+    seen = set()
+
+    def place(pl):
+        work.append(pl["l"])
+        for e in pl["p"]:
+            if e["k"] == "field" and e.get("name") is not None:
+                atoms.add(("field", str(e["name"])))
+            elif e["k"] == "index" and e.get("local") is not None:
+                work.append(e["local"])
+
+    def operand_(o):
+        if o is None:
+            return
+        if o.get("k") == "const":
+            if "fn" not in o:
+                atoms.add(("const", str(o.get("val", o.get("text", o.get("ty"))))))
+            return
+        if op_place(o) is not None:
+            place(op_place(o))
+
+    def summary(c):
+        for fld in fields_touched(F, c, memo):
+            atoms.add(("helper-call", fld[5:]) if fld.startswith("call:") else ("field", fld))
+
+    def call(t):
+        nm = callee_names(t["func"])
+        if nm:
+            atoms.add(("call", nm[0].rsplit("::", 1)[-1]))
+        if via_calls is not None and not any(t is v for v in via_calls):
+            via_calls.append(t)
+        for a in t["args"]:
+            operand_(a)
+        for n in nm:
+            c = F.fn(n, required=False)
+            if c is not None and c.mir:
+                summary(c)
+
+    operand_(operand)
+    while work:
+        l = work.pop()
+        if l in seen:
+            continue
+        seen.add(l)
+        if 1 <= l <= f.mir["arg_count"]:
+            atoms.add(("param", l))
+        for d in du.defs.get(l, []):
+            if d[2] == "call":
+                call(d[3])
+                continue
+            rv = d[3]["rv"]
+            ops, pls = _rv_operands(rv)
+            for o in ops:
+                operand_(o)
+            for pl in pls:
+                place(pl)
+            if rv["k"] == "agg" and rv["agg"]["k"] == "closure":
+                c = F.fn(short(rv["agg"]["path"]), required=False)
+                if c is not None:
+                    summary(c)
+        for t in filled.get(l, []):
+            call(t)
+    return atoms
+
+
+def table_lookups(f):
+    """the jump-table lookups of a function: calls of CaoHashMap::get on a table of FunctionMeta -> [(block, term)]"""
+    out = []
+    for bi, t in mu.calls(f):
+        if any(n.endswith("CaoHashMap::get") for n in callee_names(t["func"])) and t["args"] and \
+                "FunctionMeta" in ((t.get("arg_tys") or [""])[0] or "") and bi in f.cfg.reach:
+            out.append((bi, t))
+    return out
+
+
+def resolver_fn(F):
+    """the function that resolves a called name: Compiler::resolve_function, or (renamed) the one function of the compiler
+    module that does several jump-table lookups"""
+    f = F.fn("compiler::Compiler::resolve_function", required=False)
+    if f is not None and f.mir:
+        return f
+    cands = [g for g in F.fns if g.mir and not g.is_closure and g.path.startswith("compiler::") and len(table_lookups(g)) >= 2]
+    if len(cands) != 1:
+        raise AnchorMissing("the name resolver (a compiler function with several jump-table lookups; found %d)" % len(cands))
+    return cands[0]
+
+
+def lookup_paths(f, lookups):
+    """Path-sensitive walk over the CFG of the resolver. A lookup result is `some` or `none`; the walk follows the value
+    through moves/copies, shared borrows, discriminant reads, Option::is_none/is_some and `!`, and takes only the
+    consistent edge of a switch that tests it (so `if to.is_none() {..}` chains, `if let Some(x) = .. {return}`, `match`
+    and let-else read the same). Returns (ran_after_hit, before):
+      ran_after_hit  {(i, j)}: lookup j is executed on a path on which the earlier lookup i had found the function
+      before         {(i, j)}: lookup i is executed before lookup j on some path"""
+    idx = dict((bi, n) for n, (bi, _t) in enumerate(lookups))
+    poisoned = set()
+    for b in f.blocks:
+        for st in b["stmts"]:
+            if st["k"] == "assign" and st["rv"]["k"] in ("ref", "rawptr") and st["rv"].get("mut") not in ("shared", "not", None):
+                poisoned.add(st["rv"]["place"]["l"])
+    ran_after_hit, before = set(), set()
+    stack = [(0, frozenset(), ())]
+    seen = set()
+    steps = 0
+    while stack:
+        key = stack.pop()
+        if key in seen:
+            continue
+        seen.add(key)
+        steps += 1
+        if steps > 200000:
+            return None, None
+        bi, st_, outs = key
+        env = dict(st_)
+
+        def setv(l, v):
+            if v is None or l in poisoned:
+                env.pop(l, None)
+            else:
+                env[l] = v
+
+        def deref_target(pl):
+            """`y` / `*r` where r is a known shared borrow of y -> y"""
+            if not pl["p"]:
+                return pl["l"]
+            if len(pl["p"]) == 1 and pl["p"][0]["k"] == "deref":
+                v = env.get(pl["l"])
+                if isinstance(v, tuple) and v[0] == "ref":
+                    return v[1]
+            return None
+
+        for s_ in f.blocks[bi]["stmts"]:
+            if s_["k"] != "assign":
+                continue
+            pl, rv = s_["place"], s_["rv"]
+            if pl["p"]:
+                v = env.get(pl["l"])
+                if isinstance(v, tuple) and v[0] == "ref":
+                    env.pop(v[1], None)
+                env.pop(pl["l"], None)
+                continue
+            k = rv["k"]
+            val = None
+            if k == "use":
+                op = rv["op"]
+                if op.get("k") == "const":
+                    if isinstance(op.get("val"), (int, bool)):
+                        val = ("i", int(op["val"]))
+                else:
+                    src = deref_target(op["place"])
+                    val = env.get(src) if src is not None else None
+            elif k == "ref" and rv.get("mut") in ("shared", "not", None):
+                src = deref_target(rv["place"])
+                if src is not None:
+                    val = ("ref", src)
+            elif k == "discr":
+                src = deref_target(rv["place"])
+                v = env.get(src) if src is not None else None
+                if v in ("some", "none"):
+                    val = ("i", 1 if v == "some" else 0)
+            elif k == "un" and rv["op"] == "Not":
+                v = env.get(op_local(rv["x"])) if op_local(rv["x"]) is not None else None
+                if isinstance(v, tuple) and v[0] == "i" and v[1] in (0, 1) and f.local_ty(pl["l"]) == "bool":
+                    val = ("i", 1 - v[1])
+            elif k == "agg" and rv["agg"]["k"] == "adt" and short(rv["agg"].get("path", "")).endswith("option::Option"):
+                val = "some" if rv["agg"].get("variant") == "Some" else "none"
+            setv(pl["l"], val)
+        t = f.blocks[bi]["term"]
+        k = t["k"]
+        st_now = lambda: frozenset(env.items())
+        if k == "call":
+            if t["target"] is None:
+                continue
+            dest = t["dest"]
+            if bi in idx:
+                j = idx[bi]
+                for i, o in outs:
+                    if i != j:
+                        before.add((i, j))
+                        if o == "some":
+                            ran_after_hit.add((i, j))
+                outs_base = tuple(x for x in outs if x[0] != j)
+                for o in ("some", "none"):
+                    if dest["p"]:
+                        env.pop(dest["l"], None)
+                    else:
+                        setv(dest["l"], o)
+                    stack.append((t["target"], st_now(), tuple(sorted(outs_base + ((j, o),)))))
+                continue
+            nm = callee_names(t["func"])
+            last = nm[0].rsplit("::", 1)[-1] if nm else ""
+            val = None
+            if last in ("is_none", "is_some") and any(n.endswith("Option::" + last) for n in nm) and t["args"]:
+                al = op_local(t["args"][0])
+                v = env.get(al) if al is not None else None
+                if isinstance(v, tuple) and v[0] == "ref" and env.get(v[1]) in ("some", "none"):
+                    val = ("i", 1 if (env[v[1]] == "none") == (last == "is_none") else 0)
+            if dest["p"]:
+                env.pop(dest["l"], None)
+            else:
+                setv(dest["l"], val)
+            stack.append((t["target"], st_now(), outs))
+        elif k == "switch":
+            dl = op_local(t["discr"])
+            v = env.get(dl) if dl is not None else None
+            if t["discr"].get("k") == "const" and isinstance(t["discr"].get("val"), (int, bool)):
+                v = ("i", int(t["discr"]["val"]))
+            if isinstance(v, tuple) and v[0] == "i":
+                nxt = [dict((a, b_) for a, b_ in t["targets"]).get(v[1], t["otherwise"])]
+            else:
+                nxt = [b_ for _a, b_ in t["targets"]] + [t["otherwise"]]
+            for n_ in nxt:
+                stack.append((n_, st_now(), outs))
+        elif k in ("goto", "drop", "assert"):
+            stack.append((t["target"], st_now(), outs))
+    return ran_after_hit, before
+
+
+LOOKUP_ORDER = ["literal", "namespace", "function-import", "module-import"]
+
+
+def classify_lookup(F, f, du, t, memo):
+    """which of the documented lookups a jump-table lookup is, by what its key is computed from:
+       literal          the called name as given (nothing but the name parameter)
+       namespace        the current namespace and the name; no import involved
+       function-import  an entry of the imports found under the whole name
+       module-import    an entry of the imports found under the part of the name before a `.` (the name is split)"""
+    via = []
+    atoms = mir_provenance(F, f, du, t["args"][1], memo, via)
+    fields = set(a[1] for a in atoms if a[0] == "field")
+    calls_ = set(a[1] for a in atoms if a[0] == "call")
+    params = set(a[1] for a in atoms if a[0] == "param")
+    name_params = set(l for l in params if "str" in f.local_ty(l).lower())
+    # the called name itself is split (not the alias found for it)
+    split = False
+    for c in via:
+        nm = callee_names(c["func"])
+        if nm and "split" in nm[0].rsplit("::", 1)[-1] and c["args"]:
+            a0 = mir_provenance(F, f, du, c["args"][0], memo)
+            if any(x[0] == "param" and x[1] in name_params for x in a0) and ("field", "current_imports") not in a0:
+                split = True
+    if "current_imports" in fields:
+        kind = "module-import" if split else "function-import"
+    elif "current_namespace" in fields:
+        kind = "namespace"
+    elif name_params and not fields and not (calls_ - {"deref", "as_ref", "as_str", "borrow"}):
+        kind = "literal"
+    else:
+        kind = "?"
+    if kind != "literal" and not name_params:
+        kind = "?"      # every lookup is for the called name
+    return kind
+
+
 def rule_o(F):
     res = []
-    f = F.fn("compiler::Compiler::resolve_function")
-    anc = hu.control_ancestors(f.hir["body"])
-    gets = []
-    for x in hir_walk(f.hir["body"]):
-        if x.get("k") == "mcall" and x["name"] == "get":
-            r = hu.strip_casts(x["recv"])
-            if r.get("k") == "path" and r["path"]["res"].get("name") == "jump_table":
-                gets.append(x)
-    if len(gets) < 2:
-        raise AnchorMissing("jump_table.get calls in resolve_function")
-    # guards: if to.is_none() { .. }
-    guard_ifs = {}
-    for x in hir_walk(f.hir["body"]):
-        if x.get("k") == "if":
-            c = hu.strip_casts(x["cond"])
-            if c.get("k") == "mcall" and c["name"] == "is_none":
-                guard_ifs[id(x)] = x
-    unguarded = []
-    for n, g in enumerate(gets):
-        ctrl = anc.get(id(g), ())
-        in_guard = any(c[0] == "then" and c[1] in guard_ifs for c in ctrl)
-        if n == 0:
-            if in_guard:
-                unguarded.append("first lookup is conditional")
-        elif not in_guard:
-            unguarded.append("lookup #%d (line %d) runs even if an earlier lookup already found the function" % (n + 1, g["ln"]))
-    # characterise the order: literal, namespace, imports, module-prefix imports
-    kinds = []
-    for g in gets:
-        lv = expr_leaves(f, g["args"][0])
-        ctrl = anc.get(id(g), ())
-        region = None
-        for c in ctrl:
-            if c[0] == "then" and c[1] in guard_ifs:
-                region = guard_ifs[c[1]]
-                break
-        text = " ".join(sorted(lv))
-        uses_imports = region is not None and any(y.get("k") == "field" and y["name"] == "current_imports" for y in hir_walk(region))
-        uses_split = region is not None and any(y.get("k") == "mcall" and y["name"] == "split_once" and not any(z.get("k") == "call" for z in [y]) for y in hir_walk(region["then"]) if y.get("k") == "mcall" and y["name"] == "split_once")
-        uses_ns = region is not None and any(y.get("k") == "field" and y["name"] == "current_namespace" for y in hir_walk(region))
-        if region is None:
-            kinds.append("literal")
-        elif uses_imports and uses_split:
-            kinds.append("module-import")
-        elif uses_imports:
-            kinds.append("function-import")
-        elif uses_ns:
-            kinds.append("namespace")
-        else:
-            kinds.append("?")
-    want = ["literal", "namespace", "function-import", "module-import"]
-    if unguarded:
-        res.append(bad("C08.O", "C08/O/resolve_function/later-lookups-only-on-miss", f.loc(), "; ".join(unguarded)))
+    f = resolver_fn(F)
+    lookups = table_lookups(f)
+    if len(lookups) < 2:
+        raise AnchorMissing("jump_table.get calls in %s" % f.name)
+    # number the lookups in execution order (reverse post-order of the CFG)
+    rpo = dict((b, n) for n, b in enumerate(f.cfg._rpo()))
+    lookups.sort(key=lambda x: rpo.get(x[0], 10 ** 6))
+    key_miss = "C08/O/%s/later-lookups-only-on-miss" % f.name
+    key_order = "C08/O/%s/documented-order" % f.name
+    ran_after_hit, before = lookup_paths(f, lookups)
+    if ran_after_hit is None:
+        res.append(undecided("C08.O", key_miss, f.loc(), "too many paths through %s" % f.name))
+        res.append(undecided("C08.O", key_order, f.loc(), "too many paths through %s" % f.name))
+        return res
+    if ran_after_hit:
+        msgs = []
+        for j in sorted(set(j for _i, j in ran_after_hit)):
+            firsts = sorted(i for i, j2 in ran_after_hit if j2 == j)
+            msgs.append("lookup #%d (line %s) runs even if an earlier lookup (#%s) already found the function" %
+                        (j + 1, lookups[j][1].get("ln"), ", #".join(str(i + 1) for i in firsts)))
+        res.append(bad("C08.O", key_miss, f.loc(), "; ".join(msgs)))
     else:
-        res.append(ok("C08.O", "C08/O/resolve_function/later-lookups-only-on-miss", f.loc(), "%d lookups, each later one inside `if to.is_none()`" % len(gets)))
-    if kinds == want:
-        res.append(ok("C08.O", "C08/O/resolve_function/documented-order", f.loc(), "lookup order: %s" % " -> ".join(kinds)))
+        res.append(ok("C08.O", key_miss, f.loc(), "%d lookups; on every path a later one is reached only after all earlier ones missed" % len(lookups)))
+    du = DefUse(f)
+    memo = {}
+    kinds = [classify_lookup(F, f, du, t, memo) for _bi, t in lookups]
+    want = LOOKUP_ORDER
+    swapped = sorted((i, j) for i, j in before if i > j)
+    if kinds == want and not swapped:
+        res.append(ok("C08.O", key_order, f.loc(), "lookup order: %s" % " -> ".join(kinds)))
+    elif kinds == want:
+        res.append(bad("C08.O", key_order, f.loc(), "the lookups are not tried in one fixed order: %s" %
+                       ", ".join("%s before %s" % (kinds[i], kinds[j]) for i, j in swapped)))
     else:
-        res.append(bad("C08.O", "C08/O/resolve_function/documented-order", f.loc(), "lookup order is %s, documented order is %s" % (kinds, want)))
+        res.append(bad("C08.O", key_order, f.loc(), "lookup order is %s, documented order is %s" % (kinds, want)))
     return res
 
 
@@ -584,52 +970,84 @@ def arity_param_is_fed_with_arity(F, pidx):
     return n > 0
 
 
+# wrappers that hand their first argument's payload on unchanged (Option/Result plumbing around the subtraction)
+_PASS_THROUGH = ("ok_or", "ok_or_else", "branch", "unwrap", "expect", "unwrap_unchecked", "into", "try_into", "from", "map_err", "ok", "unwrap_or_default")
+_PAYLOAD_VARIANTS = ("Some", "Ok", "Continue")
+
+
+def _payload_place(pl):
+    """a place that reads a whole local, or the payload of its Some/Ok/Continue variant (`let Some(x) = v else`,
+    `match v { Ok(x) => .. }`, the `?` desugaring): the local it reads from, else None"""
+    proj = pl["p"]
+    if not proj:
+        return pl["l"]
+    if len(proj) == 2 and proj[0]["k"] == "downcast" and proj[0].get("variant") in _PAYLOAD_VARIANTS and proj[1]["k"] == "field" \
+            and str(proj[1].get("name")) in ("0", "_0", "__0"):
+        return pl["l"]
+    return None
+
+
+def offset_is_len_minus_arity(F, f, du, l):
+    """follow the value stored into stack_offset back through single-assignment temporaries, casts, Option/Result
+    plumbing and variant payload reads to the subtraction; it must be <ValueStack::len()> - <the arity parameter>"""
+    seen = set()
+    while l is not None and l not in seen:
+        seen.add(l)
+        ds = du.defs.get(l, [])
+        if len(ds) != 1:
+            return False
+        d = ds[0]
+        minuend = subtrahend = None
+        if d[2] == "call":
+            if d[3]["dest"]["p"]:
+                return False
+            nm = callee_names(d[3]["func"])
+            last = nm[0].rsplit("::", 1)[-1] if nm else "?"
+            if last in ("checked_sub", "saturating_sub", "wrapping_sub") and len(d[3]["args"]) == 2:
+                minuend, subtrahend = d[3]["args"]
+            elif last in _PASS_THROUGH and d[3]["args"]:
+                l = op_local(d[3]["args"][0])
+                continue
+            else:
+                return False
+        else:
+            if d[3]["place"]["p"]:
+                return False
+            rv = d[3]["rv"]
+            if rv["k"] in ("use", "cast"):
+                p = op_place(rv["op"])
+                l = _payload_place(p) if p is not None else None
+                continue
+            if rv["k"] == "bin" and rv["op"] in ("Sub", "SubUnchecked"):
+                minuend, subtrahend = rv["l"], rv["r"]
+            else:
+                return False
+        a0, a1 = op_local(minuend), op_local(subtrahend)
+        if a0 is None or a1 is None:
+            return False
+        kind, payload = du.trace_back(a0)
+        if not (kind == "call" and any(n.endswith("ValueStack::len") for n in callee_names(payload["func"]))):
+            return False
+        # the subtrahend must be the arity parameter (not a constant, not another local)
+        kind, payload = du.trace_back(a1)
+        return kind == "arg" and arity_param_is_fed_with_arity(F, payload - 1)
+    return False
+
+
 def rule_f(F):
     res = []
     f = F.fn("vm::instr_execution::push_call_frame")
     du = DefUse(f)
     good = False
+    sites = 0
     for b in f.blocks:
         for st in b["stmts"]:
             if st["k"] == "assign" and st["rv"]["k"] == "agg" and short(st["rv"]["agg"].get("path", "")).endswith("runtime::CallFrame"):
                 fields = st["rv"]["agg"]["fields"]
                 if "stack_offset" in fields:
+                    sites += 1
                     op = st["rv"]["ops"][fields.index("stack_offset")]
-                    l = op_local(op)
-                    # follow back to a checked_sub / sub of len and arity
-                    seen = set()
-                    while l is not None and l not in seen:
-                        seen.add(l)
-                        ds = du.defs.get(l, [])
-                        if len(ds) != 1:
-                            break
-                        d = ds[0]
-                        if d[2] == "call":
-                            nm = callee_names(d[3]["func"])
-                            last = nm[0].rsplit("::", 1)[-1]
-                            if last in ("checked_sub", "saturating_sub", "wrapping_sub"):
-                                a0 = op_local(d[3]["args"][0])
-                                src = du.sole_def(a0) if a0 is not None else None
-                                # the subtrahend must be the arity parameter (not a constant, not another local)
-                                a1 = d[3]["args"][1] if len(d[3]["args"]) > 1 else None
-                                a1l = op_local(a1) if a1 is not None else None
-                                sub_ok = False
-                                if a1l is not None:
-                                    kind, payload = du.trace_back(a1l)
-                                    sub_ok = kind == "arg" and arity_param_is_fed_with_arity(F, payload - 1)
-                                if src is not None and src[2] == "call" and any(n.endswith("ValueStack::len") for n in callee_names(src[3]["func"])) and sub_ok:
-                                    good = True
-                                break
-                            if last in ("ok_or", "branch", "unwrap", "ok_or_else", "into", "try_into"):
-                                l = op_local(d[3]["args"][0])
-                                continue
-                            break
-                        rv = d[3]["rv"]
-                        if rv["k"] in ("use", "cast"):
-                            p = op_place(rv["op"])
-                            l = p["l"] if p is not None else None
-                            continue
-                        break
+                    good = offset_is_len_minus_arity(F, f, du, op_local(op)) and (good or sites == 1)
     if good:
         res.append(ok("C08.F", "C08/F/push_call_frame/offset-is-len-minus-arity", f.loc(), "stack_offset = value_stack.len() - arity (checked)"))
     else:
@@ -655,7 +1073,7 @@ RULES = [
     Rule("C08.D", rule_d, 1, "duplicate test and insertion use the same key"),
     Rule("C08.T", rule_t, 2, "every function and closure body is followed by an unconditional Return"),
     Rule("C08.M", rule_m, 2, "the duplicate sub-module scan completes before its set is reused"),
-    Rule("C08.P", rule_p, 3, "`super.` is a leading component; the alias enters the looked-up name stripped"),
+    Rule("C08.P", rule_p, 4, "`super.` is a leading component; the alias enters the looked-up name stripped; the checked depth cuts the namespace"),
     Rule("C08.V", rule_v, 2, "every namespace component is validated"),
     Rule("C08.O", rule_o, 2, "resolution tries the documented lookups in order, later ones only on a miss"),
     Rule("C08.F", rule_f, 2, "callee frame = len - arity, Return truncates to it"),
